@@ -64,6 +64,12 @@ CHECKS = {
              "date-times with offsets and the range bounds are not covered.",
         note="read_number is abstract in the Verus unit; to_encoded, AsRange, date-time and range parsing are uncovered (chrono / fmt machinery).",
     ),
+    "C14": dict(
+        technique="Kani/CBMC contract harnesses over every valid UTF-8 string of the relevant lengths (all bytes symbolic, loop bounds fixed by the length)",
+        text="Complete proof for the tag parser: it accepts exactly the three hexadecimal forms in any letter case, returns the tag spelled, "
+             "rejects everything else and cannot panic on multi-byte input. Printing and attribute selectors are not covered.",
+        note="Only Tag::from_str is decided; Display, selectors and keyword lookup are uncovered.",
+    ),
     "C15": dict(
         technique="Verus contracts on the extracted lookup and indexing functions with the registry abstracted to a Map/Set view",
         text="Unbounded proof, for all 2^32 tags and any table content, that the lookup follows the stated precedence; the generated "
@@ -112,7 +118,6 @@ NOT_APPLICABLE = {
     "C36": "Parsing delegates to `std::net` address parsers and `str` splitting; string reasoning unsupported in Verus, too heavy for CBMC; no arithmetic or structural kernel to put under contract.",
     "C05": "check not built yet in this session (planned in DESIGN.md section 7); not claimed until its check runs",
     "C09": "check not built yet in this session (planned in DESIGN.md section 7); not claimed until its check runs",
-    "C14": "check not built yet in this session (planned in DESIGN.md section 7); not claimed until its check runs",
     "C16": "check not built yet in this session (planned in DESIGN.md section 7); not claimed until its check runs",
     "C17": "check not built yet in this session (planned in DESIGN.md section 7); not claimed until its check runs",
     "C20": "check not built yet in this session (planned in DESIGN.md section 7); not claimed until its check runs",
